@@ -707,6 +707,8 @@ func TestCheck(t *testing.T) {
 	r.Group("burst", r.Pick(48, 800), func(i int, rng *report.Rand) {
 		fail(burst(r, 3+i%10, i), "burst")
 	})
+	muxGroups(r)
+
 	r.Group("stress", r.Pick(16, 64), func(i int, rng *report.Rand) {
 		fail(stress(r, rng, r.Pick(250, 2000)), "stress")
 	})
